@@ -22,7 +22,7 @@ Record MInvX (k : mcfg) (p : mpool) (ex : option nat) : Prop := mkMInv {
              ((mc_state (mcl p c) = st_goaway \/ mc_state (mcl p c) = st_connecting) /\ mc_goaway (mcl p c) = true);
   mi_scli : forall s, (s < mnstreams p)%nat -> (mscli p s < mnclients p)%nat;
   mi_live : forall s, (s < mnstreams p)%nat -> mlive p s = true -> mclosed p (mscli p s) = false;
-  mi_req : mreq p = (if mk_max_req k =? 0 then 0 else Z.of_nat (mcount_live p) + mext p);
+  mi_req : mreq p = Z.of_nat (mcount_live p) + mext p;
   mi_ext : 0 <= mext p;
   mi_once : forall s, (s < mnstreams p)%nat ->
             ms_destroys (mst p s) = (if mlive p s then 0 else 1)%nat /\ (ms_recv (mst p s) <= 1)%nat /\
@@ -51,7 +51,6 @@ Qed.
 Lemma minit_inv : forall k, MInv k minit.
 Proof.
   intros k. constructor; cbn; try (intros; lia); try discriminate.
-  destruct (mk_max_req k =? 0); reflexivity.
 Qed.
 
 (* ------------------------------------------------------------------------------------------------ *)
@@ -130,7 +129,7 @@ Proof.
   - assumption.
   - intros t Ht. rewrite Hsc. auto.
   - intros t Ht. rewrite Hlv, Hsc, Hclo. auto.
-  - rewrite I7. unfold mcount_live. rewrite Hns, !mcount_countb. destruct (mk_max_req k =? 0); [reflexivity|].
+  - rewrite I7. unfold mcount_live. rewrite Hns, !mcount_countb.
     f_equal. f_equal. apply countb_ext. intros; rewrite Hlv; reflexivity.
   - assumption.
   - intros t Ht. rewrite Hlv. destruct (Nat.eq_dec t s) as [->|N].
@@ -196,18 +195,20 @@ Definition mkill (k : mcfg) (s : nat) (p : mpool) : mpool :=
 Lemma mkill_frame : forall k s p,
   mnclients (mkill k s p) = mnclients p /\ mcl (mkill k s p) = mcl p /\ mnstreams (mkill k s p) = mnstreams p /\
   mslot (mkill k s p) = mslot p /\ mext (mkill k s p) = mext p /\ mshut (mkill k s p) = mshut p /\
-  mreq (mkill k s p) = (if mk_max_req k =? 0 then mreq p else mreq p - 1) /\
+  mreq (mkill k s p) = mreq p - 1 /\
   (forall t, mscli (mkill k s p) t = mscli p t) /\
   (forall t, mlive (mkill k s p) t = if Nat.eqb t s then false else mlive p t) /\
   (forall t, t <> s -> mst (mkill k s p) t = mst p t) /\
   ms_recv (mst (mkill k s p) s) = ms_recv (mst p s) /\ ms_destroys (mst (mkill k s p) s) = S (ms_destroys (mst p s)) /\
   ms_reset (mst (mkill k s p) s) = ms_reset (mst p s).
 Proof.
-  intros k s p. unfold mkill, mreq_dec. destruct (mk_max_req k =? 0); cbn; repeat split; try reflexivity;
+  intros k s p. unfold mkill, mreq_dec. cbn; repeat split; try reflexivity;
     try (intros t; unfold mscli, mlive; cbn; unfold upd; destruct (Nat.eqb_spec t s) as [->|]; reflexivity);
     try (intros t Hne; unfold upd; destruct (Nat.eqb_spec t s); [contradiction|reflexivity]);
     try (unfold upd; rewrite Nat.eqb_refl; reflexivity).
 Qed.
+(* from here on the proofs go through mkill_frame *)
+#[local] Opaque mreq_dec.
 
 Lemma mkill_inv : forall k p s, MInv k p -> (s < mnstreams p)%nat -> mlive p s = true ->
   MInvX k (mkill k s p) (Some (mscli p s)).
@@ -229,7 +230,7 @@ Proof.
   - rewrite F2. assumption.
   - intros t Ht. rewrite F8. auto.
   - intros t Ht. rewrite F9, F8, Hclo. destruct (Nat.eqb_spec t s); [discriminate|]. auto.
-  - rewrite F7, I7. rewrite (mcount_live_after_death p (mkill k s p) s); auto. destruct (mk_max_req k =? 0); lia.
+  - rewrite F7, I7. rewrite (mcount_live_after_death p (mkill k s p) s); auto. lia.
   - assumption.
   - intros t Ht. rewrite F9. destruct (Nat.eqb_spec t s) as [->|N].
     + destruct (I9 s Hs) as [A [B C]]. rewrite Hl in A. rewrite F12, F11. split; [lia|]. split; [assumption|discriminate].
@@ -252,7 +253,7 @@ Proof.
   unfold mdrain_test. rewrite Hsw. cbn [sw_mx_goaway_flag mx_sw_fixed].
   destruct (mc_goaway (mcl p2 c) && Nat.eqb (mactive p2 c) 0 && negb (mclosed p2 c)) eqn:Ed.
   - apply andb_true_iff in Ed. destruct Ed as [Ed _]. apply andb_true_iff in Ed. destruct Ed as [_ Ez]. apply Nat.eqb_eq in Ez.
-    apply mclose_event_inv; auto. rewrite F1. assumption.
+    apply mclose_event_inv; auto; rewrite F1; assumption.
   - apply (MInvX_strengthen k p2 c HX). rewrite F1. intros _ Hopen. rewrite Hopen in Ed. cbn in Ed. rewrite andb_true_r in Ed.
     assert (Hopen' : mclosed p c = false) by (unfold mclosed in *; rewrite F2 in Hopen; exact Hopen).
     assert (Hac := mactive_after_death p p2 s c F3 Hs Hl F8 F9). fold c in Hac. rewrite Nat.eqb_refl in Hac.
@@ -445,9 +446,9 @@ Proof.
     set (n := mnstreams p).
     set (p' := mreq_inc k p <| mst := upd (mst p) n (mkMStream c true 0 0 0) |> <| mnstreams := S n |>).
     assert (F : mnclients p' = mnclients p /\ mcl p' = mcl p /\ mslot p' = mslot p /\ mext p' = mext p /\
-                mreq p' = (if mk_max_req k =? 0 then mreq p else mreq p + 1) /\ mnstreams p' = S n /\
+                mreq p' = mreq p + 1 /\ mnstreams p' = S n /\
                 mst p' = upd (mst p) n (mkMStream c true 0 0 0)).
-    { unfold p', mreq_inc. destruct (mk_max_req k =? 0); cbn; auto 10. }
+    { unfold p', mreq_inc. cbn; auto 10. }
     destruct F as [F1 [F2 [F3 [F4 [F5 [F6 F7]]]]]].
     assert (Hlv : forall t, mlive p' t = if Nat.eqb t n then true else mlive p t).
     { intros t. unfold mlive. rewrite F7. unfold upd. destruct (Nat.eqb t n); reflexivity. }
@@ -471,7 +472,7 @@ Proof.
     + assert (Hm : mcount (mlive p') n = mcount (mlive p) n).
       { rewrite !mcount_countb. apply countb_ext. intros i Hi. rewrite Hlv. destruct (Nat.eqb_spec i n); [lia|reflexivity]. }
       rewrite I7. unfold mcount_live. rewrite F6. cbn [mcount]. rewrite Hlv, Nat.eqb_refl. rewrite Hm. fold n.
-      destruct (mk_max_req k =? 0); lia.
+      lia.
     + assumption.
     + intros t Ht. rewrite Hlv. destruct (Nat.eqb_spec t n) as [->|N].
       * rewrite F7. unfold upd. rewrite Nat.eqb_refl. cbn. auto.
@@ -513,10 +514,9 @@ Proof.
   - (* MShutdown *)
     cbn [fst]. destruct HI as [I1 I2 I3 I4 I5 I6 I7 I8 I9]. constructor; auto.
   - (* MExtReq *)
-    destruct (mk_max_req k =? 0) eqn:Em; cbn [fst]; [assumption|].
-    destruct HI as [I1 I2 I3 I4 I5 I6 I7 I8 I9]. rewrite Em in I7.
+    destruct HI as [I1 I2 I3 I4 I5 I6 I7 I8 I9].
     destruct inc; [|destruct (0 <? mext p) eqn:Ee]; cbn [fst]; try (constructor; assumption);
-      constructor; cbn; try assumption; rewrite ?Em; unfold mcount_live, mlive in *; cbn; lia.
+      constructor; cbn; try assumption; unfold mcount_live, mlive in *; cbn; lia.
 Qed.
 
 Theorem mrun_inv : forall k ops, mk_sw k = mx_sw_fixed -> MInv k (mrun k ops minit).
@@ -537,7 +537,7 @@ Theorem mx_no_orphan : forall k ops, mk_sw k = mx_sw_fixed -> let p := mrun k op
      mslot p = SClient c \/ (mc_goaway (mcl p c) = true /\ (mactive p c >= 1)%nat)) /\
   (forall c, (c < mnclients p)%nat -> mclosed p c = false -> mc_goaway (mcl p c) = true -> (mactive p c >= 1)%nat) /\
   (forall s, (s < mnstreams p)%nat -> mlive p s = true -> mclosed p (mscli p s) = false) /\
-  mreq p = (if mk_max_req k =? 0 then 0 else Z.of_nat (mcount_live p) + mext p) /\ 0 <= mext p /\
+  mreq p = Z.of_nat (mcount_live p) + mext p /\ 0 <= mext p /\
   (forall s, (s < mnstreams p)%nat -> (ms_destroys (mst p s) <= 1)%nat /\ (ms_recv (mst p s) <= 1)%nat).
 Proof.
   intros k ops Hsw p. assert (HI := mrun_inv k ops Hsw). fold p in HI. destruct HI as [I1 I2 I3 I4 I5 I6 I7 I8 I9].
